@@ -358,3 +358,87 @@ def mask_only_grows(ctx):
     uc = calls_where(um.node, lambda c: callee_text(c) == 'ma.update_mask')
     ctx.check(bool(uc) and not uc[0].keywords and len(uc[0].args) == 2, '__collapse_termination#extend', 'the solver extends (never replaces) the mask',
               'the solver applies a collapse with new=True / different arguments', um, uc[0] if uc else um.node)
+
+
+@rule('C11.h', min_instances=3)
+def collapse_settings_forwarded_exactly(ctx):
+    """__collapse_constraints pins a CollapseAt parameter at the condition's own target whenever one is given (any value, including 0) and at the current value only when the target is None; offsets and clip flags are forwarded likewise"""
+    from ..paths import enumerate_block
+    f = ctx.func(AS + '.__collapse_constraints')
+    loops = [n for n in f.node.body if isinstance(n, ast.For)]
+    ctx.need(loops, '__collapse_constraints: loop over collapses not found')
+    branches = {}
+    node = loops[0].body[0] if loops[0].body and isinstance(loops[0].body[0], ast.If) else None
+    for st in loops[0].body:
+        cur = st if isinstance(st, ast.If) else None
+        while cur is not None:
+            kinds = [s_ for s_ in _strs(cur.test) if s_.startswith('Collapse')]
+            for k_ in kinds:
+                branches[k_] = cur.body
+            cur = cur.orelse[0] if len(cur.orelse) == 1 and isinstance(cur.orelse[0], ast.If) else None
+    ctx.need('CollapseAt' in branches and 'CollapseAs' in branches, 'dispatch branches not found')
+    key = loops[0].target.id
+
+    def analyse(body, setting, dflt):
+        out = []
+        for p in enumerate_block(body):
+            b = T.Builder()
+            lits = []
+            app = None
+            for e in p.events:
+                if e[0] == 'cond':
+                    lits.append((T.simp(b.t(e[1])), e[2]))
+                elif e[0] == 'stmt':
+                    st = e[1]
+                    if isinstance(st, ast.Assign) and isinstance(st.targets[0], ast.Name):
+                        b.exec_stmt(st)
+                    for c in calls_where(st, lambda c: callee_text(c).endswith('.append'), include_lambda=False):
+                        app = T.simp(b.t(c.args[0]))
+            out.append((lits, app, p))
+        return out
+    state_t = lambda name, dflt: T.term(ast.parse("state[%s]['%s'] if '%s' in state[%s] else %s" % (key, name, name, key, dflt), mode='eval').body)
+    alt_t = lambda name, dflt: T.term(ast.parse("state[%s].get('%s', %s)" % (key, name, dflt), mode='eval').body) if dflt != 'None' else \
+        T.term(ast.parse("state[%s].get('%s')" % (key, name), mode='eval').body)
+    # CollapseAt
+    tgt = (state_t('target', 'None'), alt_t('target', 'None'))
+    res = analyse(branches['CollapseAt'], 'target', None)
+    ctx.need(res, 'CollapseAt branch has no path')
+    bad = None
+    seen = set()
+    for lits, app, p in res:
+        if app is None:
+            bad = bad or ('a path appends no constraint', p)
+            continue
+        is_none = [tr for tt, tr in lits if tt[0] == 'cmp' and tt[1] in ('is', 'isnot', '==', '!=') and tt[2] in tgt and tt[3] == ('const', None)]
+        other = [tt for tt, tr in lits if not (tt[0] == 'cmp' and tt[2] in tgt and tt[3] == ('const', None))]
+        if other:
+            bad = bad or ('the choice between the given target and the current value is made on `%s`, not on `target is None`' % T.show(other[0]), p)
+            continue
+        none_true = bool(is_none) and ((lits[0][0][1] in ('is', '==')) == is_none[0])
+        if app[0] == 'call' and T.show(app[1]).endswith('impose_at') and len(app[2]) == 2 and app[2][1] in tgt:
+            seen.add('target')
+            if none_true:
+                bad = bad or ('the given target is used although it is None', p)
+        elif app[0] == 'call' and T.show(app[1]).endswith('impose_at') and len(app[2]) == 1 and app[2][0][0] == 'star' and 'select_params' in T.show(app[2][0]):
+            seen.add('current')
+            if not none_true:
+                bad = bad or ('the parameter is pinned at its current value although a target was given', p)
+        else:
+            bad = bad or ('unexpected constraint %s' % T.show(app)[:80], p)
+    ctx.check(bad is None and seen == {'target', 'current'}, '__collapse_constraints#CollapseAt', 'target given -> impose_at(collapse, target); target None -> impose_at(current values)',
+              'CollapseAt is not applied at its own target: %s' % (bad[0] if bad else 'cases %s' % sorted(seen)), f, branches['CollapseAt'][0])
+    # CollapseAs: offset forwarded
+    res = analyse(branches['CollapseAs'], 'offset', None)
+    off = (state_t('offset', 'None'), alt_t('offset', 'None'))
+    good = bool(res) and all(app is not None and app[0] == 'call' and T.show(app[1]).endswith('impose_as') and len(app[2]) == 2 and app[2][1] in off and not lits
+                             for lits, app, p in res)
+    ctx.check(good, '__collapse_constraints#CollapseAs', 'impose_as(collapse, the condition\'s own offset)',
+              'CollapseAs no longer forwards its own offset unconditionally', f, branches['CollapseAs'][0])
+    ck = [k_ for k_ in branches if k_ in ('CollapseCost', 'CollapseGrad')]
+    ctx.need(ck, 'CollapseCost branch not found')
+    res = analyse(branches[ck[0]], 'clip', 'True')
+    clip = (state_t('clip', 'True'), alt_t('clip', 'True'))
+    good = bool(res) and all(app is not None and app[0] == 'call' and T.show(app[1]).endswith('impose_bounds') and dict(app[3]).get('clip') in clip and not lits
+                             for lits, app, p in res)
+    ctx.check(good, '__collapse_constraints#CollapseCost', 'impose_bounds(collapse, clip=the condition\'s own clip, default True)',
+              'CollapseCost no longer forwards its own clip flag', f, branches[ck[0]][0])
